@@ -158,7 +158,7 @@ func init() {
 		},
 		"strconv.Itoa": func(fr *frame, a []value) value {
 			if s, ok := a[0].(sym); ok {
-				return sym{types.String, symItoa(fr.i.nm(s.kind, s.t), s.kind)}
+				return sym{types.String, fr.i.symItoa(fr.i.nm(s.kind, s.t), s.kind)}
 			}
 			return strconv.Itoa(int(asInt64(a[0])))
 		},
@@ -206,6 +206,9 @@ func init() {
 		"runtime.KeepAlive": nop,
 		"os.Getwd":          func(fr *frame, a []value) value { return tuple{"/cwd", iface{}} },
 
+		"go/token.IsExported": isExportedIntrinsic,
+		"go/types.isExported": isExportedIntrinsic,
+		"go/ast.IsExported":   isExportedIntrinsic,
 		"unicode.IsUpper":  runePred(unicode.IsUpper),
 		"unicode.IsLower":  runePred(unicode.IsLower),
 		"unicode.IsLetter": runePred(unicode.IsLetter),
@@ -249,6 +252,15 @@ func init() {
 	}
 }
 
+// isExportedIntrinsic: first rune is an upper-case letter (symbolic strings are ASCII by assumption).
+func isExportedIntrinsic(fr *frame, a []value) value {
+	if s, ok := a[0].(sym); ok {
+		return symBool("(str.in_re " + fr.i.nm(s.kind, s.t) + " (re.++ (re.range \"A\" \"Z\") re.all))")
+	}
+	r, _ := utf8.DecodeRuneInString(a[0].(string))
+	return unicode.IsUpper(r)
+}
+
 func nop(fr *frame, a []value) value { return nil }
 
 func unsupported(what string) externalFn {
@@ -290,6 +302,22 @@ func sortSlice(stable bool) externalFn {
 		}
 		return nil
 	}
+}
+
+// symItoa renders a symbolic integer in decimal. A harness variable with a small declared range
+// (ndInt(lo,hi), hi-lo < 128) is rendered as an ite-chain over its values, which string solvers
+// decide far more easily than str.from_int; the chain is exact under the range assumption that is
+// already part of the path condition.
+func (i *interpreter) symItoa(t string, k types.BasicKind) string {
+	if r, ok := i.path.intRanges[t]; ok && r[1]-r[0] < 128 {
+		w := bvWidth(k)
+		out := smtString(strconv.FormatInt(r[1], 10))
+		for v := r[1] - 1; v >= r[0]; v-- {
+			out = "(ite (= " + t + " " + bvLit(uint64(v), w) + ") " + smtString(strconv.FormatInt(v, 10)) + " " + out + ")"
+		}
+		return i.nm(types.String, out)
+	}
+	return symItoa(t, k)
 }
 
 func symItoa(t string, k types.BasicKind) string {
@@ -537,7 +565,7 @@ func (i *interpreter) fmtValue(itf iface, verb byte, flags string, depth int) []
 			esc := "(str.replace_all (str.replace_all " + t + " \"\\u{5c}\" \"\\u{5c}\\u{5c}\") \"\"\"\" \"\\u{5c}\"\"\")"
 			return []piece{{s: "\""}, {s: esc, sym: true}, {s: "\""}}
 		case bvWidth(v.kind) > 0 && (verb == 'd' || verb == 'v'):
-			return []piece{{s: symItoa(i.nm(v.kind, v.t), v.kind), sym: true}}
+			return []piece{{s: i.symItoa(i.nm(v.kind, v.t), v.kind), sym: true}}
 		case v.kind == types.Bool && (verb == 't' || verb == 'v'):
 			return []piece{{s: "(ite " + i.nm(v.kind, v.t) + " \"true\" \"false\")", sym: true}}
 		}
